@@ -48,6 +48,23 @@ def run(ctx, prog, res):
         r1.check(len(got) >= 1 and all(x[0] == e for x in got), {"failure": ty, "exception": e, "sites": len(got)}, "C12.R1:%s" % e,
                  "%s is converted to %s (expected %s)" % (ty, [x[0] for x in got], e), got[0][1] if got else lib.where_of(new))
 
+    # R1 (continued): the value that is validated is the argument itself
+    val_sites = []
+    for fid in prog.with_closures(new.id):
+        f = prog.fns[fid]
+        if f.kind != "Closure":
+            continue
+        if any(flow.call_name(t).endswith("Coordinates::new") for _, t in f.calls()):
+            val_sites.append(f)
+    recv = []
+    for _, t in new.calls():
+        if flow.call_name(t).endswith("Option::<T>::map") or flow.call_name(t).endswith("Option::<T>::and_then"):
+            clo = flow.closure_of_operand(new, t["args"][1])
+            if clo in {f.id for f in val_sites}:
+                recv.append(flow.shape(new, t["args"][0], depth=6))
+    r1.check(len(recv) == 1 and re.fullmatch(r"p\d+", recv[0]) is not None, {"coordinates_validated": "the unmodified argument" if recv else None, "receiver": recv}, "C12.R1:coords-unconditional",
+             "the coordinates that reach validation are not the unmodified argument (%s): invalid coordinates can be dropped before they are checked" % recv, lib.where_of(new))
+
     # R2 -------------------------------------------------------------------------------------
     r2 = res.rule("C12.R2", "validate(s) is the success of the very parser call the constructor uses on its expression argument")
     v = prog.require_fn("opening_hours_py::validate")
